@@ -26,7 +26,7 @@ EXPLANATION = ('Failure-atomicity and guard rules on the CFG of FeatureRef::appl
                'value from readFeats, a cast-chain typing rule on the setting comparison, copy-constructor use at the two clone sites, '
                'the language match, and the shared tag-normalisation rule.  How need_bits are packed into 32-bit chunks and which bytes '
                'a label has are value-level and not decided.')
-FLOORS = {'NOSTRADDLE': 1, 'FAILATOMIC': 6, 'READGUARD': 1, 'NOSETTINGS': 1, 'SETTINGZEXT': 1, 'CLONE': 3, 'LANGMATCH': 7, 'INDEXTESTS': 1, 'TAGNORM': 3, 'NARROWREAD': 1, 'LABELENC': 4}
+FLOORS = {'NOSTRADDLE': 3, 'FAILATOMIC': 6, 'READGUARD': 1, 'NOSETTINGS': 1, 'SETTINGZEXT': 1, 'CLONE': 3, 'LANGMATCH': 7, 'INDEXTESTS': 1, 'TAGNORM': 3, 'NARROWREAD': 1, 'LABELENC': 4}
 
 
 def failatomic(run, fx):
@@ -294,6 +294,19 @@ def nostraddle(run, fx):
         run.violated('NOSTRADDLE', 'chunk bump', fn.where(), 'the FeatureRef constructor no longer moves bits_offset to the next chunk when the field would straddle a word '
                      '(bump %s, test %s)' % (bool(bump), bool(edges)))
         return
+    # the running bit offset covers every feature of the table: m_numFeats is a 16-bit count and every feature takes at least one bit,
+    # so the offset (the constructor's in/out parameter and the caller's variable bound to it) is at least 16 bits wide
+    from .cfg import int_type
+    bo = [p_ for p_ in fn.f['params'] if p_['n'] == 'bits_offset' or ((p_.get('t') or '').rstrip().endswith('&') and int_type((p_.get('t') or '').replace('&', '').strip()))]
+    if len(bo) != 1:
+        run.broken('NOSTRADDLE', 'bit offset width', 'the in/out bit-offset parameter of the FeatureRef constructor was not recognised', fn.where())
+    else:
+        w_ = int_type((bo[0].get('t') or '').replace('&', '').strip())
+        if w_ and w_[0] >= 16:
+            run.held('NOSTRADDLE', 'bit offset width', fn.where(), '%s' % bo[0].get('t'))
+        else:
+            run.violated('NOSTRADDLE', 'bit offset width', fn.where(), 'the running bit offset of the feature values is a `%s`: it wraps after %d bits, so the features of a font that needs more '
+                         'are laid over the bits of earlier ones -- writing one changes another' % (bo[0].get('t'), 1 << (w_[0] if w_ else 8)))
     bb = fn.block_of[bump[0]['i']]
     ok = True
     for (b, idx) in edges:
@@ -399,6 +412,50 @@ def idorder(run, fx):
         run.held('INDEXTESTS', 'id order', '', '%d feature/name functions: no ordering by the sign of a wrapped unsigned difference' % nf)
 
 
+def maskexec(run, fx):
+    """a feature's mask is mask_over_val(largest setting): all ones from the top set bit down.  Every instantiation of mask_over_val
+    in the program is interpreted (rules/ordint.py) on values at both ends of every bit length of its type and must give
+    2^bitlength(v) - 1: a mask with holes makes a set value read back differently and spill into the neighbouring feature."""
+    from . import ordint as O
+    from .cfg import int_type
+    fns = []
+    for k, f in fx.raw['functions'].items():
+        if f['q'] == 'graphite2::mask_over_val' and f.get('blocks') and len(f.get('params') or []) == 1:
+            fns.append(fx.fn(k))
+    seen, n = set(), 0
+    for fn in fns:
+        t = int_type(fn.f['params'][0].get('t'))
+        if not t or fn.f['params'][0].get('t') in seen:
+            continue
+        seen.add(fn.f['params'][0].get('t'))
+        bits = t[0]
+        vals = sorted({0, 1, 2, 3, 5} | {x for b in range(1, bits + 1) for x in ((1 << b) - 1, 1 << (b - 1), (1 << (b - 1)) + 1) if x < (1 << bits)})
+        inst = 'mask_over_val<%s> has no holes' % fn.f['params'][0].get('t')
+        n += 1
+        prob = None
+        try:
+            for v in vals:
+                it = O.Interp(fx)
+                it.MAX_STEPS = 3000
+                r = it.call(fn, None, [v])
+                want = (1 << v.bit_length()) - 1
+                if not isinstance(r, int) or (r & ((1 << bits) - 1)) != want:
+                    prob = 'mask_over_val(%#x) gives %s, expected %#x' % (v, ('%#x' % r) if isinstance(r, int) else repr(r), want)
+                    break
+        except O.Violation as v_:
+            prob = '%s (%s)' % (v_.what, v_.loc)
+        except (AnalysisBroken, O.AnalysisBroken) as ex:
+            run.broken('NOSTRADDLE', inst, str(ex), fn.where())
+            continue
+        if prob:
+            run.violated('NOSTRADDLE', inst, fn.where(), prob + ': a feature whose largest setting has that shape reserves too few bits -- a value that was set reads back differently and '
+                         'writes spill into the neighbouring feature')
+        else:
+            run.held('NOSTRADDLE', inst, fn.where(), '%d values at both ends of every bit length' % len(vals))
+    if n < 1:
+        run.broken('NOSTRADDLE', 'mask_over_val has no holes', 'no instantiation of graphite2::mask_over_val found')
+
+
 def langfresh(run, fx):
     """LANGMATCH, the table side: "the font's defaults overridden by the Sill entry of that language".  In SillMap::readSill every
     applyValToFeature() writes into an object that was created from m_defaultFeatures inside the same iteration of the language loop
@@ -452,6 +509,7 @@ def langfresh(run, fx):
 
 def run(run):
     fx = run.facts('Q0')
+    maskexec(run, fx)
     langfresh(run, fx)
     from . import ordint as O_
     cf_ = fx.one('graphite2::SillMap::cloneFeatures')
